@@ -18,6 +18,7 @@
    (D36, D37); the last section refutes the statements for the code before. *)
 From Coq Require Import List ZArith Bool Arith Permutation.
 From NT Require Import Sx Rose Export ExportProofs.
+From NT Require Nav.
 From NT Require CaseC17.   (* the correspondence entry point is rebuilt with the obligations *)
 From NTGen Require Import Generated.
 Import ListNotations.
@@ -45,6 +46,15 @@ Theorem C17_edges_by_search : forall s, NoDup (ids_t s) ->
   desc_p s = flat_map (fun c => match parent_in s c with Some p => [(p, c)] | None => [] end) (pre_f (rch s)).
 Proof. exact desc_p_by_search. Qed.
 Print Assumptions C17_edges_by_search.
+
+(* the _parent the exporters read is the parent the relationship queries of C10
+   report: [None] (top level) for a child of the system root, else that node *)
+Theorem C17_edges_agree_with_parent_query : forall root p c,
+  NoDup (ids_t root) -> In (p, c) (desc_p root) ->
+  exists cx, Nav.locate_f (rid c) (rch root) = Some cx /\ Nav.c_self cx = c /\
+             Nav.q_parent cx = if same_node p root then None else Some p.
+Proof. exact edges_agree_with_parent_query. Qed.
+Print Assumptions C17_edges_agree_with_parent_query.
 
 (* ======================================================================= DOT *)
 (* node definitions: one per distinct key, first occurrences of
